@@ -741,6 +741,8 @@ def c19(tier):
     res = Result("C19", tier)
     vlib.build_harness()
     thorough = tier == "thorough"
+    # design level: the propagation algorithm (EquivAlgo.tla) satisfies C19 on all small frameworks
+    res.add_mc(vlib.mc("MCEquiv.tla", cfg="MCEquiv_N4.cfg" if thorough else "MCEquiv.cfg", wd=res.wd, name="MCEquiv", timeout=3000))
     sets = af_sets(res, tier)
     rnd = afgen.random_afs(seed() + 77, 6000 if thorough else 1500, 4, 9)
     plans = [("ref3", sets["ref3"]), ("iso4", afgen.iso4_sample(seed(), 100000 if thorough else 1500)),
@@ -755,7 +757,11 @@ def c19(tier):
         evs = [json.loads(l) for l in open(out)]
         segs = [[{"ev": "reset"}] + evs[i:i + 400] for i in range(1, len(evs), 400)]
         t1, st = vlib.judge("TraceEquiv.tla", segs, res.wd, name, shards=8)
-        res.add_judge(name, t1, st, only_props={"C19"})
+        drift = [t for t in t1 if t["pred"].startswith("T2:")]
+        res.drift += len(drift)
+        if drift:
+            log("  NOTE drift: %d reductions differ from EquivAlgo.tla's transcription (not a verdict)" % len(drift))
+        res.add_judge(name, [t for t in t1 if not t["pred"].startswith("T2:")], st, only_props={"C19"})
         for e in evs[1:]:
             if any(len(c) >= 2 for c in e["classes"]) and len(e["classes"]) >= 2:
                 nt.add((json.dumps(e["att"]), len(e["args"])))
